@@ -52,6 +52,31 @@ mutual
     | e => printAt 0 e
 end
 
+mutual
+  /-- tokens of `t` with every operator application (binary, type, polarity, invocation, indexer)
+      in its own parentheses; function arguments are rendered the same way -/
+  def printFull : Ex → List Tok
+    | .bin o l r => .kw "(" :: (printFull l ++ .kw o :: printFull r) ++ [.kw ")"]
+    | .typ o e q => .kw "(" :: (printFull e ++ .kw o :: qualToks q) ++ [.kw ")"]
+    | .pol s e => .kw "(" :: (.kw s :: printFull e) ++ [.kw ")"]
+    | .dot e i => .kw "(" :: (printFull e ++ .kw "." :: printFull i) ++ [.kw ")"]
+    | .idx e i => .kw "(" :: (printFull e ++ .kw "[" :: printFull i ++ [.kw "]"]) ++ [.kw ")"]
+    | .call n as => .ident n :: .kw "(" :: printFullArgs as ++ [.kw ")"]
+    | .argNil => []
+    | .argCons e r => printFull e ++ printFullArgs r
+    | .lit (.kw "{}") => [.kw "{", .kw "}"]
+    | .lit t => [t]
+    | .qty n u => [.num n, u]
+    | .ext n => [.kw "%", .ident n]
+    | .special s => [.kw s]
+    | .member n => [.ident n]
+  def printFullArgs : Ex → List Tok
+    | .argNil => []
+    | .argCons e .argNil => printFull e
+    | .argCons e r => printFull e ++ .kw "," :: printFullArgs r
+    | e => printFull e
+end
+
 /-- nesting of parentheses / indexers / arguments the parser has to enter -/
 def depth : Ex → Nat
   | .bin _ l r => max (depth l) (depth r) + 1
